@@ -214,7 +214,7 @@ type vc10Obs struct {
 
 // do runs one modifier call under recover and a progress-based hang monitor:
 // the call is declared hung only when it has not returned AND the DAG service
-// saw no request for 20 s (operations on these <= 8 KiB files normally take well
+// saw no request for 10 s (quick) / 25 s (thorough, race detector on) (operations on these <= 8 KiB files normally take well
 // under a millisecond; a slow but live operation keeps issuing block requests, a
 // spinning walker does not). vlib.Guard then attaches two goroutine dumps taken
 // 2 s apart and aborts the batch.
@@ -249,7 +249,7 @@ wait:
 				w.k.C.Count("slow_op_polls_with_progress", 1)
 				continue
 			}
-			if idle++; idle >= 20 {
+			if idle++; idle >= w.k.C.N(10, 25) {
 				if !vlib.Guard(w.k, where, time.Second, func() { <-done }) {
 					return vc10Obs{hung: true}
 				}
